@@ -23,7 +23,7 @@ def gen_elem(rng, depth, maxdepth, maxkids):
     attrs = []
     if rng.random() < 0.2:
         for k in rng.sample(["k", "id", "n"], rng.randint(1, 2)):
-            attrs.append([k, rng.choice(["v", "1", "a b", "<&\""])])
+            attrs.append([k, rng.choice(["v", "1", "a b", "<&\"", ""])])
     kids = []
     if depth < maxdepth and rng.random() < (0.75 if depth < 2 else 0.4):
         pool = rng.sample(TAGS, rng.randint(1, 3))
